@@ -662,6 +662,39 @@ pub fn c18(a: &Args) -> Report {
     rep
 }
 
+// ------------------------------------------------------------------------------------ C10 (spellings of the flag)
+
+/// `ignore(case)` written with a trailing comma, extra white space or line breaks is the same flag:
+/// the generated code must equal that of the plain spelling, for token, regex and skip definitions
+pub fn c10_spellings(rep: &mut Report) {
+    let spellings = ["ignore(case,)", "ignore(case, )", "ignore( case )", "ignore(\ncase\n)", "ignore(\n    case,\n)"];
+    let defs: [(&str, &str); 6] = [
+        ("token", "enum T { #[token(\"kelvin\", IG)] A, #[regex(\"[a-z]+\", priority = 1)] W }"),
+        ("token with priority", "enum T { #[token(\"if\", priority = 9, IG)] A, #[regex(\"[a-zA-Z]+\")] W }"),
+        ("regex", "enum T { #[regex(\"sel[a-z]ct|from\", IG)] A, #[token(\"zz\")] Z }"),
+        ("regex with callback", "enum T { #[regex(\"x[0-9a-f]+\", cb, IG)] A(u8), #[token(\"zz\")] Z }"),
+        ("skip", "#[logos(skip(\"rem[a-z ]*\", IG))] enum T { #[token(\"zz\")] Z }"),
+        ("byte token", "#[logos(utf8 = false)] enum T { #[token(b\"k\\xff\", IG)] A, #[token(\"zz\")] Z }"),
+    ];
+    for (what, d) in defs {
+        let (canon, acc) = gen_tokens(&d.replace("IG", "ignore(case)"));
+        let (plain, _) = gen_tokens(&d.replace(", IG", ""));
+        rep.count("evaluations", 1);
+        if !acc || canon == plain {
+            rep.violations.push(viol("ICASE-SPELLING", "c10", format!("{what}: ignore(case)"), "the plain spelling is rejected or has no effect on the generated code".into(), json!({"src": d})));
+            continue;
+        }
+        for sp in spellings {
+            let (t, a) = gen_tokens(&d.replace("IG", sp));
+            rep.count("evaluations", 1);
+            rep.count("distinct_nontrivial", 1);
+            if a && t != canon {
+                rep.violations.push(viol("ICASE-SPELLING", "c10", format!("{what}: {}", sp.replace('\n', "\\n")), format!("the definition is accepted but the generated code differs from that of `ignore(case)`{}", if t == plain { ": it equals the code WITHOUT the flag" } else { "" }), json!({"src": d.replace("IG", sp), "canon": d.replace("IG", "ignore(case)")})));
+            }
+        }
+    }
+}
+
 // ------------------------------------------------------------------------------------ C08 (attribute level)
 
 /// Equal-priority overlaps written in ways the pattern-level family cannot express: two attributes
@@ -1031,6 +1064,11 @@ pub fn replay(a: &Args, rec: &serde_json::Value) -> Report {
             if differs {
                 rep.violations.push(viol(tag, "c16", spec.short(), "output depends on iteration order".into(), json!({})));
             }
+        }
+        "c10" => {
+            let mut tmp = Report::new(&a.prop, "vgraph replay", &a.tier_name);
+            c10_spellings(&mut tmp);
+            rep.violations = tmp.violations.into_iter().filter(|v| v.tag == tag).take(1).collect();
         }
         "c08" => {
             let src = r["src"].as_str().unwrap_or("").to_string();
